@@ -822,8 +822,8 @@ func specPreorderAll(roots []*Node, i int) []*Node {
 //@   ensures blank [C02,C12,C15]: md.allSpace(row) ==> result0 == nil && result1 == nil && ng.parser.isSharpRoot == old(ng.parser.isSharpRoot) && ng.parser.spaces == old(ng.parser.spaces) && ng.parser.sep == old(ng.parser.sep)
 //@   ensures one [C12]: !md.allSpace(row) ==> (result0 != nil) == (result1 == nil)
 //@   ensures node [C01,C12]: result0 != nil ==> fresh(result0) && result0.hierarchy >= 1 && result0.parent == nil && len(result0.children) == 0 && result0.index == idx
-//@   ensures heading [C01,C15]: !md.allSpace(row) && len(row) > 0 && row[0] == '#' && md.specHeadingText(row) != "" ==> result0 != nil && result0.hierarchy == 1 && result0.name == md.specHeadingText(row)
-//@   ensures item [C01,C02,C15]: !md.allSpace(row) && len(row) > 0 && row[0] != '#' && md.specItemShape(old(ng.parser.sep), old(ng.parser.spaces), row) && md.specItemText(row) != "" ==> result0 != nil && result0.name == md.specItemText(row) && result0.hierarchy == md.specDepth(old(ng.parser.spaces), row) + 1 + (ng.parser.isSharpRoot ? 1 : 0)
+//@   ensures heading [C01,C04,C15]: !md.allSpace(row) && len(row) > 0 && row[0] == '#' && md.specHeadingText(row) != "" ==> result0 != nil && result0.hierarchy == 1 && result0.name == md.specHeadingText(row)
+//@   ensures item [C01,C02,C04,C15]: !md.allSpace(row) && len(row) > 0 && row[0] != '#' && md.specItemShape(old(ng.parser.sep), old(ng.parser.spaces), row) && md.specItemText(row) != "" ==> result0 != nil && result0.name == md.specItemText(row) && result0.hierarchy == md.specDepth(old(ng.parser.spaces), row) + 1 + (ng.parser.isSharpRoot ? 1 : 0)
 //@   ensures reject [C02]: !md.allSpace(row) && len(row) > 0 && row[0] != '#' && !md.specItemShape(old(ng.parser.sep), old(ng.parser.spaces), row) ==> result1 != nil && isType(result1, inputFormatError) && as(result1, inputFormatError).row == row
 //@   ensures empty [C02]: !md.allSpace(row) && len(row) > 0 && ((row[0] == '#' && md.specHeadingText(row) == "") || (row[0] != '#' && md.specItemShape(old(ng.parser.sep), old(ng.parser.spaces), row) && md.specItemText(row) == "")) ==> result1 == errEmptyText
 
